@@ -21,13 +21,24 @@ pub(crate) struct ClassBody {
 
 impl Compile for ClassBody {
     fn compile(&self, state: &CompilationState) -> Result<Vec<CompiledItem>, anyhow::Error> {
-        let mut result = vec![];
+        let (mut result, mut construct) = self.constructor.compile_parts(state)?;
 
+        // the constructor and the methods are made first, while the frame of the class holds no field yet: a bare
+        // name in a method body is a variable of the enclosing scopes, never the field of the
+        // same name (fields are reached through `self`)
         for feature in &self.features {
-            result.append(&mut feature.compile(state)?);
+            if let ClassFeature::Function(..) = feature {
+                result.append(&mut feature.compile(state)?);
+            }
         }
 
-        result.append(&mut self.constructor.compile(state)?);
+        for feature in &self.features {
+            if let ClassFeature::Variable(..) = feature {
+                result.append(&mut feature.compile(state)?);
+            }
+        }
+
+        result.append(&mut construct);
 
         result.push(instruction!(ret));
 
